@@ -24,6 +24,10 @@ var (
 	ctPool = []string{"", "", "application/json", "application/xml", "application/json; charset=utf-8", "text/plain", "application/octet-stream", "APPLICATION/JSON"}
 )
 
+// values a plain variable is given in matching requests: the first twelve of valuePool, and text that LOOKS escaped
+// once the server has decoded the request line (sent as %2541, %252F, ...): it must be bound as it stands
+var matchValues = append(append([]string{}, valuePool[:12]...), "%41", "100%41", "a%2Fb", "50%25off", "a+b", "%")
+
 type tokKind int
 
 const (
@@ -305,7 +309,7 @@ func valueFor(r *rand.Rand, tok string) []string {
 	cb := strings.LastIndex(tok, "}")
 	inner := tok[ob+1 : cb]
 	pre, suf := tok[:ob], tok[cb+1:]
-	val := pick(r, valuePool[:12])
+	val := pick(r, matchValues)
 	if c := strings.Index(inner, ":"); c >= 0 {
 		re := inner[c+1:]
 		switch re {
@@ -316,7 +320,7 @@ func valueFor(r *rand.Rand, tok string) []string {
 			}
 			out := []string{}
 			for i := 0; i < n; i++ {
-				out = append(out, pick(r, valuePool[:12]))
+				out = append(out, pick(r, matchValues))
 			}
 			return out
 		case "[0-9]+":
